@@ -138,13 +138,13 @@ theorem C18_self_pattern (env : CfgEnv) (rel text : Str) (raw raw' : RawCfg)
     (cfgHasKey rel raw.filePatterns = false →
       ∃ line cv vp, curVersionLine text = some line ∧
         rawStr "current_version".toList raw.opts = .ok cv ∧ rawStr "version_pattern".toList raw.opts = .ok vp ∧
-        lookup rel raw'.filePatterns = some [pyReplace cv vp line]) ∧
+        lookup rel raw'.filePatterns = some [pyReplace (stripQuotes cv) (stripQuotes vp) line]) ∧
     (∀ e ps, parseConfig env raw' = .ok e → lookup rel raw'.filePatterns = some ps →
       (env.glob rel = [] ∨ rel ∈ env.glob rel) → Lists e rel ps) := by
   have hself : cfgHasKey rel raw.filePatterns = false →
       ∃ line cv vp, curVersionLine text = some line ∧
         rawStr "current_version".toList raw.opts = .ok cv ∧ rawStr "version_pattern".toList raw.opts = .ok vp ∧
-        lookup rel raw'.filePatterns = some [pyReplace cv vp line] := by
+        lookup rel raw'.filePatterns = some [pyReplace (stripQuotes cv) (stripQuotes vp) line] := by
     intro hk
     unfold addSelfPattern at h1
     rw [hk] at h1
@@ -163,7 +163,7 @@ theorem C18_self_pattern (env : CfgEnv) (rel text : Str) (raw raw' : RawCfg)
           cases hx : lookup rel raw.filePatterns with
           | none => rfl
           | some v => rw [hx] at hk; cases hk
-        show lookup rel (raw.filePatterns ++ [(rel, [pyReplace cv vp line])]) = _
+        show lookup rel (raw.filePatterns ++ [(rel, [pyReplace (stripQuotes cv) (stripQuotes vp) line])]) = _
         rw [lookup_append, hnone, lookup_cons, if_pos rfl]
         rfl
     · cases h1
@@ -256,8 +256,8 @@ theorem C18_quoted_bool_witness :
 theorem C18_self_pattern_mixed_quotes_witness :
     parseCurrentVersionDefaultPattern "1.2.3".toList "\"MAJOR.MINOR.PATCH\"".toList
       "[bumpver]\ncurrent_version = 1.2.3\nversion_pattern = \"MAJOR.MINOR.PATCH\"\n".toList
-      = .ok "current_version = \"MAJOR.MINOR.PATCH\"".toList ∧
-    parseCurrentVersionDefaultPattern "1.2.3".toList "MAJOR.MINOR.PATCH".toList
+      = .ok "current_version = MAJOR.MINOR.PATCH".toList ∧
+    parseCurrentVersionDefaultPattern "'1.2.3'".toList "\"MAJOR.MINOR.PATCH\"".toList
       "[bumpver]\ncurrent_version = '1.2.3'\nversion_pattern = \"MAJOR.MINOR.PATCH\"\n".toList
       = .ok "current_version = 'MAJOR.MINOR.PATCH'".toList := by
   decide
